@@ -400,17 +400,61 @@ def main(argv=None):
     results = []
     harness_err = None
     if not violations and not (parent_result and parent_result["status"] == "violation"):
+        # one forked process per worker; every worker leaves its result in a file of a private scratch directory.  (A
+        # multiprocessing.Pool can dead-lock in terminate() when it is torn down while a worker is still sending a large
+        # result - a check must always exit.)
+        import pickle
+        import shutil
+        import tempfile
         ctxmp = mp.get_context("fork")
-        with ctxmp.Pool(nw) as pool:
-            for r in pool.imap_unordered(worker, jobs):
-                results.append(r)
-                if r["status"] == "harness-error":
-                    harness_err = r["harness_error"]
-                    pool.terminate()
-                    break
-                if r["status"] == "violation":
-                    pool.terminate()
-                    break
+        scratch = tempfile.mkdtemp(prefix="vf_run_")
+
+        def to_file(job, path):
+            r = worker(job)
+            with open(path + ".tmp", "wb") as f:
+                pickle.dump(r, f)
+            os.replace(path + ".tmp", path)
+
+        procs = {}
+        try:
+            for i, job in enumerate(jobs):
+                path = os.path.join(scratch, "w%d.pkl" % i)
+                pr = ctxmp.Process(target=to_file, args=(job, path), daemon=True)
+                pr.start()
+                procs[i] = (pr, path)
+            pending = dict(procs)
+            stop = False
+            while pending and not stop:
+                time.sleep(0.05)
+                for i in list(pending):
+                    pr, path = pending[i]
+                    if pr.is_alive():
+                        continue
+                    pr.join()
+                    del pending[i]
+                    if os.path.exists(path):
+                        with open(path, "rb") as f:
+                            r = pickle.load(f)
+                    else:
+                        r = {"status": "harness-error", "harness_error": "worker %d died with exit code %r without a result" % (i, pr.exitcode)}
+                    results.append(r)
+                    if r["status"] == "harness-error":
+                        harness_err = r["harness_error"]
+                        stop = True
+                        break
+                    if r["status"] == "violation":
+                        stop = True
+                        break
+        finally:
+            for pr, _ in procs.values():
+                if pr.is_alive():
+                    pr.terminate()
+            for pr, _ in procs.values():
+                pr.join(5)
+                if pr.is_alive():
+                    pr.kill()
+                    pr.join(5)
+            shutil.rmtree(scratch, ignore_errors=True)
     if parent_result is not None:
         results.append(parent_result)
     if harness_err:
